@@ -67,6 +67,7 @@ using HB = vshim::WeakPtr<size_t>;
 namespace
 {
 struct Stuck {};
+[[noreturn]] void StuckExit();  // a thread is stuck inside the library: report what has been found and leave
 struct Viol {
   std::string props, sig, msg;
 };
@@ -160,7 +161,7 @@ struct Worker {
   }
 };
 
-constexpr double kPatience = 60.0;  // generous: the operations waited for take microseconds
+constexpr double kPatience = 15.0;  // generous: the operations waited for take microseconds
 
 size_t
 PosOf(const std::string &pattern, size_t i)
@@ -206,7 +207,7 @@ RunScenario(const std::string &pattern, size_t k)
     Worker *w = start(i);
     if (!w->WaitGot(kPatience)) {
       Violate("C14", "CLAIM-NEVER-RETURNS", Fmt("%s: thread %zu of %zu did not obtain an id although only %zu ids are in use", tag.c_str(), i, kCap, i));
-      throw Stuck{};  // cannot clean up a thread stuck in the library
+      StuckExit();  // cannot clean up a thread stuck in the library
     }
     check_claim(w, i, "first wave");
   }
@@ -224,7 +225,7 @@ RunScenario(const std::string &pattern, size_t k)
     if (!old.RawExpired()) Violate("C15", "HEARTBEAT-ALIVE-AFTER-EXIT", Fmt("%s: heartbeat of exited thread %zu is not expired", tag.c_str(), k));
     if (!extra->WaitGot(kPatience)) {
       Violate("C14", "ID-NOT-RETURNED", Fmt("%s: holder %zu (id %zu) exited, yet the waiting thread did not obtain an id", tag.c_str(), k, freed));
-      throw Stuck{};
+      StuckExit();
     }
     check_claim(extra, kCap, "after a holder exited");
     // every id is held again (the release of one id must not have freed any other): a further thread has to wait
@@ -244,7 +245,7 @@ RunScenario(const std::string &pattern, size_t k)
       if (freed2 < kCap && holder[freed2] == static_cast<long>(k2)) holder[freed2] = -1;
       if (!extra2->WaitGot(kPatience)) {
         Violate("C14", "ID-NOT-RETURNED", Fmt("%s: holder %zu (id %zu) exited, yet the second waiting thread did not obtain an id", tag.c_str(), k2, freed2));
-        throw Stuck{};
+        StuckExit();
       }
       check_claim(extra2, kCap + 1, "after a second holder exited");
     } else {
@@ -252,7 +253,7 @@ RunScenario(const std::string &pattern, size_t k)
       holder[0] = -1;
       if (!extra2->WaitGot(kPatience)) {
         Violate("C14", "ID-NOT-RETURNED", Fmt("%s: the holder exited, yet the second waiting thread did not obtain an id", tag.c_str()));
-        throw Stuck{};
+        StuckExit();
       }
       check_claim(extra2, kCap + 1, "after a second holder exited");
     }
@@ -272,7 +273,7 @@ RunScenario(const std::string &pattern, size_t k)
     Worker *w = start(kCap - 1 - i);
     if (!w->WaitGot(kPatience)) {
       Violate("C14", "ID-NOT-RETURNED", Fmt("%s: after all threads exited, thread %zu of a fresh wave of %zu did not obtain an id", tag.c_str(), i, kCap));
-      throw Stuck{};
+      StuckExit();
     }
     check_claim(w, i, "second wave");
   }
@@ -307,6 +308,27 @@ Emit(FILE *out, const std::string &program, size_t threads, size_t v0, double wa
   fprintf(out, "]}}\n");
 }
 
+FILE *g_out = nullptr;
+std::string g_cur_program;
+size_t g_cur_v0 = 0, g_rows = 0;
+bool g_replay = false;
+
+[[noreturn]] void
+StuckExit()
+{
+  if (g_replay) {
+    for (auto &v : g_viols) printf("VIOLATION-DETAIL [%s] %s: %s\n", v.props.c_str(), v.sig.c_str(), v.msg.c_str());
+    fflush(stdout);
+    _exit(1);
+  }
+  if (g_out != nullptr) {
+    Emit(g_out, g_cur_program, 0, g_cur_v0, 0.0);
+    fprintf(g_out, "{\"summary\":true,\"programs\":%zu,\"wall_s\":0,\"stuck\":true}\n", g_rows + 1);
+    fflush(g_out);
+  }
+  _exit(0);  // threads stuck inside the library cannot be joined
+}
+
 }  // namespace
 
 int
@@ -339,6 +361,7 @@ main(int argc, char **argv)
       return 2;
     }
     printf("== replay IDManager(capacity %zu) sequential scenario: %s\n", kCap, program.c_str());
+    g_replay = true;
     try {
       RunScenario(pat, k);
     } catch (const Stuck &) {
@@ -348,10 +371,14 @@ main(int argc, char **argv)
     _exit(g_viols.empty() ? 0 : 1);
   }
   FILE *out = outp.empty() ? stdout : fopen(outp.c_str(), "w");
+  g_out = out;
   size_t n = 0;
   for (auto &s : scenarios) {
     const auto t0 = std::chrono::steady_clock::now();
     const size_t v0 = g_viols.size();
+    g_cur_program = Fmt("cap=%zu;pattern=%s;k=%zu", kCap, s.first.c_str(), s.second);
+    g_cur_v0 = v0;
+    g_rows = n;
     // signatures are per scenario: let the same kind of violation be reported for each scenario it occurs in
     size_t threads = 0;
     bool stuck = false;
